@@ -553,6 +553,9 @@ var sourceInstrumentation = []srcInstr{
 	// the blob mutex: interleavings inside one file operation (C15 lin.blob, enabled by blob_lock_sched)
 	{harnessPkg: "mem", pkgDir: "keyvalue/blob", pkgName: "blob", file: "bytes.go", anchor: "b.mu.Lock()", before: "verifHook(\"blob.lock\"); ",
 		hookImport: "github.com/hack-pad/hackpadfs/keyvalue/blob"},
+	// the same when the harness lives in the blob package itself (C19 blob.CrossSet)
+	{harnessPkg: "keyvalue/blob", pkgDir: "keyvalue/blob", pkgName: "blob", file: "bytes.go", anchor: "b.mu.Lock()", before: "verifHook(\"blob.lock\"); ",
+		hookImport: "github.com/hack-pad/hackpadfs/keyvalue/blob"},
 }
 
 // instrumentedSources returns path -> new content for the instrumentation that applies to the given harness
@@ -574,7 +577,14 @@ func instrumentedSources(repo string, pkgs []*pkgOverlay, engine bool) map[strin
 				continue
 			}
 			out[src] = bytes.ReplaceAll(b, []byte(ins.anchor), []byte(ins.before+ins.anchor))
-			if !ins.nativeOnly {
+			if !ins.nativeOnly && ins.pkgDir == p.Dir {
+				// the harness package is the instrumented package: the hook calls verifSched directly
+				hook := "package " + ins.pkgName + "\n\nfunc verifHook(l string) {\n\tif verifParam(\"blob_lock_sched\") != 0 {\n\t\tverifSched(l)\n\t}\n}\n"
+				if !engine {
+					hook = "package " + ins.pkgName + "\n\nfunc verifHook(l string) {\n\tif verifM.Params[\"blob_lock_sched\"] != 0 {\n\t\tverifSched(l)\n\t}\n}\n"
+				}
+				out[filepath.Join(repo, ins.pkgDir, "zz_verif_hook.go")] = []byte(hook)
+			} else if !ins.nativeOnly {
 				hook := "package " + ins.pkgName + "\n\n// VerifHook is installed by the harness package of a native replay (verif instrumentation).\nvar VerifHook func(string)\n\nfunc verifHook(l string) {\n\tif VerifHook != nil {\n\t\tVerifHook(l)\n\t}\n}\n"
 				out[filepath.Join(repo, ins.pkgDir, "zz_verif_hook.go")] = []byte(hook)
 				if !engine {
